@@ -325,7 +325,7 @@ Proof.
       apply wp_bind. apply wp_mono with (Q := fun _ s6 => keeps s0 s6 /\ 1 <= bl s6).
       { destruct (N.eqb indent 0); [|apply wp_ret; split; assumption].
         apply wp_bind. apply (wp_look cap cap_ge); [lia|]. intros s6 H6 B6 B6' _. apply keeps_input in H6. kt K5 H6.
-        apply (wp_next_is_document_end cap cap_ge); [exact B6|]. intros r. split; [exact K5|lia]. }
+        apply (wp_next_is_document_indicator cap cap_ge); [exact B6|]. intros r. split; [exact K5|lia]. }
       intros de s6 [K6 B6]. destruct de; [apply wp_ret; split; assumption|].
       apply wp_bind. apply (wp_next_is cap cap_ge); [exact B6|]. intros trailing_blank.
       apply wp_bind. eapply wp_mono; [apply safe_content_line; exact K6|]. cbv beta. intros acc1 s7 [K7 V7].
